@@ -575,6 +575,20 @@ impl Prop for C03 {
                 }
             }
         }
+        // ---- a neighbour module with another tagging default, generated before / after this one, must not matter
+        if c.occ.len() <= 1 && c.occ.first().map_or(true, |o| o.num == 5 && o.pos.matches('>').count() < 1) {
+            let others: Vec<&str> = ["AUTOMATIC", "EXPLICIT", "IMPLICIT"].into_iter().filter(|d| *d != c.default).collect();
+            for (nb_name, nb_default) in [("A-Nb", others[0]), ("Z-Nb", others[1]), ("A-Nb", others[1]), ("Z-Nb", others[0])] {
+                let nb = format!("{nb_name} DEFINITIONS {nb_default} TAGS ::= BEGIN\nNb ::= SEQUENCE {{ n BOOLEAN, o INTEGER }}\nNc ::= [3] CHOICE {{ p NULL, q BOOLEAN }}\nEND\n");
+                if let Outcome::Ok { generated, .. } = compile_rasn(&[src.clone(), nb.clone()], &Cfg::default()) {
+                    if let Ok(p2) = project(&generated) {
+                        if p2.module("m").map(|x| x.without_docs()) != Some(m.without_docs()) {
+                            discs.push(Disc::new(format!("tag|neighbour|self={dflt}|neighbour={nb_default}|{}", if nb_name.starts_with('A') { "before" } else { "after" }), format!("module M differs when compiled next to\n{nb}\n{src}\n--- alone ---\n{gen}\n--- joint ---\n{generated}")));
+                        }
+                    }
+                }
+            }
+        }
         // ---- wire level
         let h = fnv(&src);
         let mut wr = wire_results().lock().unwrap().get(&h).cloned();
